@@ -13,6 +13,7 @@ GROUPS_PLAIN = R.by_dimension(LIN_PLAIN)
 DIMS = sorted(GROUPS_PLAIN, key=lambda d: [float(x) for x in d])
 NONZERO_DIMS = [d for d in DIMS if any(x != 0 for x in d)]
 BASE = ["m", "g", "s", "K", "C", "cd", "mol", "rad"]
+NODIM_FACTOR = [a for a in GROUPS[R.ZERO] if a[1] in ("%", "ppth", "[pi]", "[alpha]", "[euler]")]
 RAD_DIM = tuple(F(1) if i == 7 else F(0) for i in range(8))
 
 
@@ -69,10 +70,36 @@ def expr_of_dim(draw, dim, allow_compound=True):
     if c == "base":
         return draw(base_expansion(dim))
     a = atom(*draw(st.sampled_from(plain)))
+    if draw(st.integers(0, 2)) == 0:
+        # a dimensionless unit that carries a factor (%, ppth, [pi], PR ...) next to dimensional ones
+        return ["*", atom(*draw(st.sampled_from(NODIM_FACTOR))), a] if draw(st.booleans()) else \
+               ["*", a, atom(*draw(st.sampled_from(NODIM_FACTOR)))]
     d2 = draw(st.sampled_from(NONZERO_DIMS))
     x = atom(*draw(st.sampled_from(GROUPS_PLAIN[d2])))
     y = atom(*draw(st.sampled_from(GROUPS_PLAIN[d2])))
     return ["/", ["*", a, x], y]
+
+
+small_frac = st.sampled_from([(1, 1), (2, 1), (-1, 1), (1, 2), (3, 2), (-1, 2), (1, 3), (2, 3), (1, 4), (3, 1), (-2, 1), (5, 2)])
+
+
+@st.composite
+def shared_atoms_pair(draw):
+    """Two unit expressions over the SAME atoms with different (fractional) exponents, e.g. km1:2*s and km*s-3:2."""
+    n = draw(st.integers(1, 2))
+    atoms = draw(st.lists(st.sampled_from(LIN_PLAIN), min_size=n, max_size=n, unique=True))
+
+    def build():
+        t = None
+        for (p, s) in atoms:
+            e = draw(small_frac)
+            leaf = atom(p, s, e[0], e[1])
+            t = leaf if t is None else ["*", t, leaf]
+        return t
+    u, v = build(), build()
+    if draw(st.integers(0, 2)) == 0:
+        v = ["*", v, atom(*draw(st.sampled_from(LIN_PLAIN)))]
+    return u, v
 
 
 def finite_floats(lo_exp=-250, hi_exp=250):
